@@ -136,7 +136,7 @@ def oracle(case, line, exact):
         if line == "ptr=ok" or (line == "bad_alloc" and n * s > (1 << 24)): return None
         return "n <= max_size(): expected an aligned pointer (or bad_alloc for a huge request)"
     if k == "A":
-        want = "addr=1 eq=1 ne=0 rebind=1 max=1 hint=ok hint_len=length_error stack=1"
+        want = "addr=1 eq=1 ne=0 rebind=1 max=1 hint=ok hint_len=length_error xeq=1 xfree=ok stack=1"
         return None if line == want else "aligned_allocator members (address, ==, !=, converting constructor, rebind, allocate with hint) / STACK_BUFFER: expected " + want
     if k == "T":
         s, n, a, ans = int(t[1]), int(t[2]), int(t[3]), t[4]
@@ -439,6 +439,9 @@ def regenerate(ctx):
             ctx.broken.append("generated definition %s is missing (the source left the translator's subset)" % n)
 
 
+COVER, EXCLUDE = {}, {}      # filled from props/C14/coverage.py (the inventory table) by closed_list()
+
+
 # ------------------------------------------------------------------ closed declaration list
 def closed_list(ctx):
     """every function / overload / member / alias / macro declared in the four anchored files (clang AST, with and without
@@ -449,6 +452,8 @@ def closed_list(ctx):
         _sys.path.insert(0, here)
     import declscan, coverage
     importlib.reload(coverage)
+    global COVER, EXCLUDE
+    COVER, EXCLUDE = coverage.COVER, coverage.EXCLUDE        # the inventory table (props/C14/coverage.py)
     tu = os.path.join(ctx.verif, "tools", "c14gen", "scan.cpp")
     inc = ctx.include_dir()
     decls = {}
@@ -471,11 +476,39 @@ def closed_list(ctx):
         ctx.broken.append("declaration not covered by any case kind or theorem (line %s): %s" % (decls[k], k))
     for k in stale:
         ctx.broken.append("a covered declaration disappeared or changed its signature: %s" % k)
+    return decls
+
+
+def inventory(ctx, decls, runs, thm):
+    """per declaration: executed cases of its case kinds in this run (over all builds that ran) and its theorems;
+    fails closed on a covered declaration with zero executed cases or with a theorem that is not discharged"""
+    per_kind = {}
+    for label, exe, exact, cases, lines, expect, crashes in runs:
+        for c, l in zip(cases, lines):
+            if not (l.startswith("<crash") or l == "<not run>"):
+                per_kind[c[0]] = per_kind.get(c[0], 0) + 1
+    inv = {}
+    for k in sorted(decls or {}):
+        if k in COVER:
+            e = COVER[k]
+            n = sum(per_kind.get(kind, 0) for kind in e["kinds"])
+            bad = [t for t in e["theorems"] if not thm.get(t)]
+            inv[k] = {"line": decls[k], "case_kinds": e["kinds"], "executed": n, "theorems": e["theorems"], "note": e["note"]}
+            if n == 0:
+                ctx.broken.append("inventory: covered declaration with zero executed cases in this run: %s" % k)
+            for t in bad:
+                ctx.broken.append("inventory: theorem %s named for %s is missing or not discharged" % (t, k))
+        elif k in EXCLUDE:
+            inv[k] = {"line": decls[k], "excluded": EXCLUDE[k]}
+        else:
+            inv[k] = {"line": decls[k], "uncovered": True}
+    ctx.cov["inventory"] = inv
+    ctx.cov["inventory_cases_per_kind"] = per_kind
 
 
 # ------------------------------------------------------------------ the check
 def run(ctx):
-    closed_list(ctx)
+    decls = closed_list(ctx)
     regenerate(ctx)
     thm = ctx.coq_check(("Properties.v", "PropertiesGen.v"))
     gen_broken = sorted(n for n, ok in thm.items() if n.startswith("gen_") and not ok)
@@ -665,6 +698,7 @@ def run(ctx):
                 ctx.broken.append("correspondence C14 model vs %s on case %r: impl=%r model=%r (the implementation's output satisfies the property oracle)"
                                   % (label, c[:300], got[:300], (exp or "")[:300]))
     ctx.cov["mismatches"] = nmis
+    inventory(ctx, decls, runs, thm)
     ctx.trusted += ["translator tools/cxx2coq/cxx2coq.py + statement walker tools/c14gen/c14gen.py (clang++ -std=c++11 JSON AST of tools/cxx2coq/inst/alloc.cpp -> "
                     "Gallina over Common.CxxSem.interp; the machine reading MZ wraps every operation to its C type); allocate() is generated as a statement "
                     "list (C14.GenSem.astmt) whose reading [run] is hand-written; a pointer is read as its address",
